@@ -160,11 +160,11 @@ func TestVerifC14Stream(t *testing.T) {
 	c.Rule("stream: lock-step cases over the gated wire: arrangement (real<->real, real client<->reference server, reference client<->real server), reference seed/padding length (0, 1, 8191, 8192, uniform), deterministic randomness of the real side, 6..40 actions write(side,n) / release(direction, plan: 1 byte, few, k, all, up to seed/magic/header/handshake/write boundary -1/0/+1, dribble) / readSmall; oracle after every released segment and write at quiescence: reader holds exactly plaintext[:released-handshakeLen]; non-trivial = mixed arrangement or >= 3 segments inside the 8-byte header; fingerprint = config + action list")
 	c.Assume("SHA-256 and AES-CTR of the Go standard library are trusted (shared with the reference peer)")
 	c.Assume("pad-key IV = MAC(label, seed)[16:32] as deployed by obfsproxy (taken from the code under test; the written specification only names the key)")
-	c.Floor("arr-realC-refS", 0.22)
-	c.Floor("arr-refC-realS", 0.22)
-	c.Floor("arr-real-real", 0.15)
-	c.Floor("hdr>=3seg", 0.10)
-	c.Floor("coalesced-hs+data", 0.08)
+	c.Floor("arr-realC-refS/stream", 0.22)
+	c.Floor("arr-refC-realS/stream", 0.22)
+	c.Floor("arr-real-real/stream", 0.12)
+	c.Floor("hdr>=3seg/stream", 0.10)
+	c.Floor("coalesced-hs+data/stream", 0.08)
 	c.Floor("refpad-extreme/mixed", 0.25)
 	rapid.Check(t, func(rt *rapid.T) { vfC14StreamCase(rt, c) })
 }
@@ -293,7 +293,7 @@ func vfC14StreamCase(rt *rapid.T, c *ev.Collector) {
 	}
 	writeEnd := func(w *vfEnd, k int) {
 		if !ready(w) {
-			hist = append(hist, fmt.Sprintf("skipwrite(%v)", w.side))
+			hist = append(hist, fmt.Sprintf("notready(%v)", w.side))
 			return
 		}
 		dir := 0
@@ -391,6 +391,11 @@ func vfC14StreamCase(rt *rapid.T, c *ev.Collector) {
 		case r < 5:
 			releasePlan(e)
 		case r < 9:
+			if !ready(e) {
+				// cannot write yet: make progress on the handshake this side waits for
+				releasePlan(ends[1-side])
+				continue
+			}
 			writeEnd(e, drawWriteLen())
 			writeEnds[side] = append(writeEnds[side], e.hsLen+len(e.sent))
 		default:
@@ -457,7 +462,7 @@ func vfC14StreamCase(rt *rapid.T, c *ev.Collector) {
 	}
 
 	// ---- evidence ----
-	cls := []string{vfArrNames[arr], "scenario-" + scenario}
+	cls := []string{"stream", vfArrNames[arr], "scenario-" + scenario}
 	hdr3 := ends[0].hdrSegs >= 3 || ends[1].hdrSegs >= 3
 	if hdr3 {
 		cls = append(cls, "hdr>=3seg")
